@@ -1067,6 +1067,12 @@ func (r *Raft) sendAppendEntries(id string, address string, numResponses *int, r
 		return
 	}
 
+	// Ignore the response if it is for a request that was sent in an earlier term:
+	// it says nothing about what this node has replicated as the leader of this term.
+	if request.Term != r.currentTerm {
+		return
+	}
+
 	// Become a follower if a follower has a more up-to-date term.
 	if response.Term > r.currentTerm {
 		r.becomeFollower(id, response.Term)
